@@ -91,18 +91,18 @@ func (c *gateL2) Unlock(ctx context.Context, lk []*sop.LockKey) error {
 }
 
 type lactor struct {
-	id     int
-	kind   string // add | remove | get | new
-	name   string
-	o      storex.Opts
-	g      *gate
-	root   sop.UUID // the RootNodeID this actor's store would carry
+	id      int
+	kind    string // add | remove | get | new
+	name    string
+	o       storex.Opts
+	g       *gate
+	root    sop.UUID // the RootNodeID this actor's store would carry
 	started bool
-	done   bool
-	res    string
-	fin    chan string
-	calls  []string // catalogue calls of a `new` actor
-	order  int      // completion order
+	done    bool
+	res     string
+	fin     chan string
+	calls   []string // catalogue calls of a `new` actor
+	order   int      // completion order
 }
 
 type lworld struct {
@@ -391,6 +391,7 @@ func (w *lworld) judge() {
 			if prev := owner[a.name]; prev != nil {
 				w.s.Fail("C12/lock/two-creators-told-created", "two callers creating the same store name were both told they created it (no Remove of the name in between)",
 					fmt.Sprintf("store %s: actor %d (%s) and actor %d (%s)", a.name, prev.id, prev.kind, a.id, a.kind))
+				continue // the store belongs to the one that was told first
 			}
 			owner[a.name] = a
 		case a.kind == "remove" && a.res == "ok":
@@ -430,7 +431,9 @@ func (w *lworld) judge() {
 	describe := func(where string, n string, got string, ok bool) {
 		o := owner[n]
 		if o == nil {
-			if ok {
+			if ok && removedOK[n] && !strings.HasPrefix(where, "storeinfo.txt") {
+				w.s.Fail("C12/lock/removed-store-still-served", "Remove(name) returned nil, yet "+where+" still answers with the removed store (a Get that ran between Remove's cache.Delete and its folder removal put it back into the cache)", n+" "+got)
+			} else if ok {
 				w.s.Fail("C12/lock/unowned-store-present", "a store nobody was told it created (or that was removed) is still described by "+where, n+" "+got)
 			}
 			return
@@ -514,6 +517,7 @@ func (w *lworld) finishAll() {
 }
 
 var lockPoints = []string{"lock-", "lock+", "set-", "unlock-"}
+var removePoints = []string{"lock-", "lock+", "del-", "del+", "unlock-"}
 
 type wop struct {
 	kind, name string
@@ -545,7 +549,7 @@ var windows = [][]wop{
 }
 
 // one directed schedule: base stores, actor 1 (kind) parked at point, the window runs, actor 1 resumes.
-func lockDirected(ctx context.Context, s *hx.Session, repl bool, kind, point string, base []string, win []wop) {
+func lockDirected(ctx context.Context, s *hx.Session, repl bool, kind, name, point string, base []string, win []wop) {
 	w, clean := newLockWorld(ctx, s, repl)
 	defer clean()
 	s.Nontrivial()
@@ -555,7 +559,7 @@ func lockDirected(ctx context.Context, s *hx.Session, repl bool, kind, point str
 		x := w.spawn(id, "add", b, storex.Opts{Slot: 6, Unique: true})
 		w.to(x, "")
 	}
-	a := w.spawn(1, kind, "sa", oA)
+	a := w.spawn(1, kind, name, oA)
 	w.to(a, point)
 	w.observe()
 	id = 1
@@ -567,6 +571,44 @@ func lockDirected(ctx context.Context, s *hx.Session, repl bool, kind, point str
 	w.observe()
 	w.to(a, "")
 	s.Hit("lock:directed:" + kind + ":" + point)
+	w.finishAll()
+}
+
+// C12-F3: NewBtree(sa) whose Add gave up on the busy store-list lock looks the name up (nothing yet: the holder has not
+// written), and its cleanup Remove(sa) then waits for the lock and deletes the store the holder has just created.
+func lockCorpusBusyCleanup(ctx context.Context, s *hx.Session, repl bool) {
+	w, clean := newLockWorld(ctx, s, repl)
+	defer clean()
+	s.Nontrivial()
+	s.Hit("lock:corpus:busy-cleanup")
+	w.to(w.spawn(11, "add", "so", storex.Opts{Slot: 6, Unique: true}), "")
+	a := w.spawn(1, "add", "sa", oA)
+	w.to(a, "lock+")
+	b := w.spawn(2, "new", "sa", oA)
+	for i := 0; i < 7 && !b.done; i++ { // six refused DualLock attempts of Add, then the first attempt of the cleanup Remove
+		w.to(b, "lock-")
+	}
+	w.observe()
+	w.to(a, "")
+	w.observe()
+	w.to(b, "")
+	w.finishAll()
+}
+
+// C12-F4: a Get between Remove's cache.Delete and its folder removal re-caches the store that is being removed.
+func lockCorpusGetDuringRemove(ctx context.Context, s *hx.Session, repl bool) {
+	w, clean := newLockWorld(ctx, s, repl)
+	defer clean()
+	s.Nontrivial()
+	s.Hit("lock:corpus:get-during-remove")
+	w.to(w.spawn(11, "add", "so", storex.Opts{Slot: 6, Unique: true}), "")
+	w.to(w.spawn(12, "add", "sa", oA), "")
+	r := w.spawn(1, "remove", "sa", oA)
+	w.to(r, "del+")
+	w.to(w.spawn(2, "get", "sa", oA), "")
+	w.to(r, "")
+	w.observe()
+	w.to(w.spawn(3, "new", "sa", oA), "")
 	w.finishAll()
 }
 
@@ -621,17 +663,25 @@ func runLock(ctx context.Context, s *hx.Session, o hx.RunOpts, p *hx.Prng) {
 	if o.Thorough() {
 		bases = [][]string{{}, {"so"}, {"so", "sa"}}
 	}
+	for _, repl := range layouts {
+		lockCorpusBusyCleanup(ctx, s, repl)
+		lockCorpusGetDuringRemove(ctx, s, repl)
+	}
 	n := 0
 	for _, repl := range layouts {
 		for _, base := range bases {
-			for _, kind := range []string{"add", "new"} {
-				for _, pt := range lockPoints {
+			for _, kn := range [][2]string{{"add", "sa"}, {"new", "sa"}, {"remove", "so"}} {
+				pts := lockPoints
+				if kn[0] == "remove" {
+					pts = removePoints
+				}
+				for _, pt := range pts {
 					for wi, win := range windows {
 						n++
 						if !o.Thorough() && repl && (wi+n)%3 != 0 {
 							continue // a third of the replicated schedules in the quick tier
 						}
-						lockDirected(ctx, s, repl, kind, pt, base, win)
+						lockDirected(ctx, s, repl, kn[0], kn[1], pt, base, win)
 					}
 				}
 			}
